@@ -1,13 +1,16 @@
 #!/bin/bash
-# usage: run_matrix.sh [seed ...]   -- runs every seeded change against the quick check of its own property (first 3 chars of the seed name)
+# usage: run_matrix.sh [seed ...]   -- runs every seeded change against the quick check of its own property (first 3 chars
+# of the seed name). The change is applied to $MATRIX_REPO (default /repo; any git worktree of /repo at the same commit
+# works and keeps /repo itself untouched), checked with GOWP_REPO pointing there, and reverted.
 cd /verif
-SEEDS=${@:-$(ls seeded)}
+R=${MATRIX_REPO:-/repo}
+SEEDS=${@:-$(ls seeded | grep -v INDEX)}
 for N in $SEEDS; do
   P=${N:0:3}
-  if [ -n "$(git -C /repo status --porcelain)" ]; then echo "/repo not clean"; exit 2; fi
-  git -C /repo apply /verif/seeded/$N/patch.diff || { echo "$N: patch does not apply"; continue; }
-  OUT=$(GOWP_EVIDENCE=/var/tmp/gowp_seeded_evidence ./bin/gowp check -property $P -tier quick 2>&1); RC=$?
-  git -C /repo checkout -- .
+  if [ -n "$(git -C $R status --porcelain)" ]; then echo "$R not clean"; exit 2; fi
+  git -C $R apply /verif/seeded/$N/patch.diff || { echo "$N: patch does not apply"; continue; }
+  OUT=$(GOWP_REPO=$R GOWP_EVIDENCE=/var/tmp/gowp_seeded_evidence ./bin/gowp check -property $P -tier quick 2>&1); RC=$?
+  git -C $R checkout -- .
   V=$(echo "$OUT" | grep -c "^VIOLATION"); M=$(echo "$OUT" | grep -c "^MACHINERY")
-  echo "$N vs $P: rc=$RC violations=$V machinery=$M :: $(echo "$OUT" | grep "^VIOLATION\|^MACHINERY" | head -2 | sed 's|/verif/out/||' | tr '\n' ' ' | cut -c1-200)"
+  echo "$N vs $P: rc=$RC violations=$V machinery=$M :: $(echo "$OUT" | grep "^VIOLATION\|^MACHINERY" | sort -r | head -2 | sed 's|/verif/out/||' | tr '\n' ' ' | cut -c1-200)"
 done
